@@ -123,7 +123,7 @@ PROPS = {
     },
     "C07": {
         "modules": ["C07", "C07Chain"],
-        "streams": [{"name": "chain", "quick": 120, "thorough": 4000}, {"name": "merkle", "quick": 40, "thorough": 2400}],
+        "streams": [{"name": "chain", "quick": 90, "thorough": 4000}, {"name": "activation", "quick": 90, "thorough": 3200}, {"name": "merkle", "quick": 40, "thorough": 2400}],
         "projection": "chain",
         "oracles": [],
         "assumptions": ["blake3 collision-freeness enters as the explicit hypotheses `Injective` / `RootsInjective` of the soundness and sensitivity theorems",
@@ -159,7 +159,7 @@ PROPS = {
     },
     "C20": {
         "modules": ["C20", "Reach"],
-        "streams": [{"name": "apply", "quick": 120, "thorough": 4800}, {"name": "seal", "quick": 120, "thorough": 4800}, {"name": "chain", "quick": 90, "thorough": 3200}],
+        "streams": [{"name": "activation", "quick": 90, "thorough": 3200}, {"name": "apply", "quick": 120, "thorough": 4800}, {"name": "seal", "quick": 120, "thorough": 4800}, {"name": "chain", "quick": 90, "thorough": 3200}],
         "projection": "counts",
         "oracles": ["counts"],
     },
